@@ -103,4 +103,35 @@ theorem delivered_then_indexed (s : State) (t : Tx) (r r2 : State × List (Addr 
   subst h1; subst h2
   simp
 
+
+/-! ### `TxSigLimit` -/
+
+/-- A transaction that brings a multisignature key holding, together with itself, more keys than `TxSigLimit` is
+refused, whatever else is right about it (signature, fee, memo), also in simulation. -/
+theorem sig_limit_enforced (s : State) (t : Tx) (simulate : Bool) (n : Nat) (hpk : t.pk = true)
+    (hn : s.keyNodes.lookup t.signer = some n) (hpos : n ≠ 0) (hlim : s.p.txSigLimit < 1 + (n : Int)) :
+    anteOK s t simulate = false := by
+  have hsd : sigDepthOK s t.signer = false := by
+    unfold sigDepthOK
+    rw [hn]
+    simp only [Bool.or_eq_false_iff, beq_eq_false_iff_ne, ne_eq, decide_eq_false_iff_not]
+    exact ⟨hpos, by omega⟩
+  unfold anteOK
+  simp only [hpk, if_true, hsd]
+  cases s.keys.lookup t.signer <;> simp
+
+/-- A plain key is not subject to the limit, and a multisignature key within the limit passes this check. -/
+theorem sig_limit_within (s : State) (k n : Nat) (hn : s.keyNodes.lookup k = some n)
+    (h : n = 0 ∨ 1 + (n : Int) ≤ s.p.txSigLimit) : sigDepthOK s k = true := by
+  unfold sigDepthOK
+  rw [hn]
+  simpa using h
+
+/-- non-vacuity: the nested key of the histories (m(p,m(p,p)): four keys below it) under a limit of 4 is refused,
+under a limit of 5 it passes -/
+example (s : State) (h1 : s.keyNodes = [(11, 4)]) (h2 : s.p.txSigLimit = 4) : sigDepthOK s 11 = false := by
+  simp [sigDepthOK, h1, h2]
+example (s : State) (h1 : s.keyNodes = [(11, 4)]) (h2 : s.p.txSigLimit = 5) : sigDepthOK s 11 = true := by
+  simp [sigDepthOK, h1, h2]
+
 end Posmint.Props.C03
